@@ -14,6 +14,17 @@
 #include "esl_sq.h"
 #include "esl_wuss.h"
 
+/* Uninitialised heap memory: ASan fills fresh allocations with 0xbe, which reads as TRUE / non-NULL and hides a
+ * forgotten initialisation (e.g. a useme[] flag never written). Fill with 0x00 on odd seeds and 0xff on even seeds so
+ * that both readings are exercised (ASAN_OPTIONS from the environment still take precedence for what they set). */
+const char *__asan_default_options(void);
+const char *__asan_default_options(void)
+{
+  const char *s = getenv("VERIF_SEED");
+  long seed = s ? strtol(s, NULL, 10) : 1;
+  return (seed % 2) ? "malloc_fill_byte=0:max_malloc_fill_size=1048576" : "malloc_fill_byte=255:max_malloc_fill_size=1048576";
+}
+
 static ESL_MSA *A, *B;
 static ESL_ALPHABET *abc_rna, *abc_dna, *abc_amino;
 
